@@ -852,4 +852,100 @@ theorem coalesce_segments (a : Bytes) (segs : List Bytes) :
     | nil => simp [coalesceInto]
     | cons b segs ih => simp only [List.map_cons, coalesceInto]; rw [ih]; simp
 
+/-! ### what the layer does with upstream replies nobody is waiting for -/
+
+private theorem reach (c : Cfg) (acts : List Act) (conns : List Bool) (evs : List Ev) :
+    Inv (addonMsgs acts) (run c (init acts conns) evs).1.core ∧
+    (run c (init acts conns) evs).1.core.seen = (queriesOf (run c (init acts conns) evs).2).reverse := by
+  have h := run_goodT c (addonMsgs acts) evs (init acts conns) (Inv_init acts conns)
+  exact ⟨h.1, by simpa [init] using h.2.1⟩
+
+private theorem stray_core (c : Cfg) (A : List Msg) (σ : State) (hinv : Inv A σ.core) (d : Bytes)
+    (huns : ∀ m ∈ (extract c.I c.tcp σ.respBuf d).1, ¬ Solicited σ.core m) :
+    (step c σ (.serverData d)).2 =
+        (if σ.core.phase = .query ∧ σ.core.serverOpen = true ∧ (extract c.I c.tcp σ.respBuf d).2.2 = true then [.closeServer] else []) ∧
+    ((extract c.I c.tcp σ.respBuf d).2.2 = false → (step c σ (.serverData d)).1 =
+        (if σ.core.phase = .query ∧ σ.core.serverOpen = true then { σ with respBuf := (extract c.I c.tcp σ.respBuf d).2.1 } else σ)) := by
+  have hmsgs := handleMsgs_unsolicited c A (extract c.I c.tcp σ.respBuf d).1 σ.core hinv huns
+  by_cases hq : σ.core.phase = .query
+  · by_cases ho : σ.core.serverOpen = true
+    · have hne : σ.core.phase ≠ .crashed := by rw [hq]; simp
+      have hst : step c σ (.serverData d) = stepServer c σ d := by simp [step, hq, ho]
+      rw [hst]
+      unfold stepServer
+      simp only [hmsgs, hne, if_false, hq, ho, true_and]
+      generalize extract c.I c.tcp σ.respBuf d = x
+      cases hb : x.2.2 <;> simp
+    · simp [step, hq, ho]
+  · rw [step_not_query c σ _ hq]; simp [hq]
+
+/-- **C27 (stray upstream replies, every history).** After any history, when the upstream sends data in which no
+    message has both the id and the question section of a query the client has sent on this connection — unsolicited
+    ids, replies for another question, replies for an id whose query was answered and re-used for another question —
+    then no hook fires and nothing is sent to the client; the only possible output is closing the upstream after a
+    malformed frame. The state is untouched except that the TCP de-framer advances exactly as for solicited data:
+    complete stray frames are consumed, an incomplete one stays buffered (so a stray frame split over several segments,
+    with anything in between, cannot shift the framing of later replies). -/
+theorem stray_reply_ignored (c : Cfg) (acts : List Act) (conns : List Bool) (evs : List Ev) (d : Bytes) :
+    let σ := (run c (init acts conns) evs).1
+    let x := extract c.I c.tcp σ.respBuf d
+    (∀ m ∈ x.1, ∀ q ∈ queriesOf (run c (init acts conns) evs).2, ¬ (q.id = m.id ∧ q.questions = m.questions)) →
+    (step c σ (.serverData d)).2 =
+        (if σ.core.phase = .query ∧ σ.core.serverOpen = true ∧ x.2.2 = true then [.closeServer] else []) ∧
+    (x.2.2 = false → (step c σ (.serverData d)).1 =
+        (if σ.core.phase = .query ∧ σ.core.serverOpen = true then { σ with respBuf := x.2.1 } else σ)) := by
+  intro σ x hstray
+  obtain ⟨hinv, hseen⟩ := reach c acts conns evs
+  have huns : ∀ m ∈ x.1, ¬ Solicited σ.core m := by
+    intro m hm hs
+    obtain ⟨q, h1, h2, h3⟩ := Solicited_seen hinv hs
+    exact hstray m hm q (by rw [hseen] at h1; simpa using h1) ⟨h2, h3⟩
+  exact stray_core c (addonMsgs acts) σ hinv d huns
+
+/-- **C27 (which upstream replies are handled).** In every reachable state a message from the upstream is handled
+    (`dns_response` hook, then sent to the client unless an addon clears it) exactly if the flow table holds, under the
+    message's id, a flow whose request has the same question section — a first reply and a duplicate of it alike —
+    and is ignored without any effect otherwise. -/
+theorem upstream_reply_cases (c : Cfg) (acts : List Act) (conns : List Bool) (evs : List Ev) (m : Msg) :
+    let σ := (run c (init acts conns) evs).1.core
+    (∀ f q, σ.flows.lookup m.id = some f → f.request = some q → m.questions = q.questions →
+        serverMsg c σ m = handleResponse c σ m.id f m) ∧
+    (¬ Solicited σ m → serverMsg c σ m = (σ, [])) := by
+  intro σ
+  exact ⟨fun f q hl hr hq => serverMsg_solicited c σ m f q hl hr hq,
+         fun h => serverMsg_unsolicited c (addonMsgs acts) σ m (reach c acts conns evs).1 h⟩
+
+/-- **C27 (a buffered upstream segment commutes with client data).** Over TCP with the upstream open: an upstream
+    segment that completes no frame (e.g. the first part of a stray or solicited reply) and a following client segment
+    can be delivered in either order — same hooks, same bytes sent, same final state. -/
+theorem buffered_server_segment_commutes (c : Cfg) (htcp : c.tcp = true) (σ : State) (s x : Bytes)
+    (hq : σ.core.phase = .query) (ho : σ.core.serverOpen = true)
+    (hnone : (parse c.I (σ.respBuf ++ s)).1 = []) (hok : (parse c.I (σ.respBuf ++ s)).2.2 = false) :
+    run c σ [.serverData s, .clientData x] = run c σ [.clientData x, .serverData s] :=
+  buffered_server_commutes c htcp σ s x hq ho hnone hok
+
+/-- **C27 (a frame split around a client query is harmless).** … hence an upstream frame whose first part arrives
+    before a client segment and whose rest (followed by anything) arrives after it is handled exactly as if all of it
+    had arrived after the client segment in one piece. -/
+theorem split_frame_around_query (c : Cfg) (htcp : c.tcp = true) (σ : State) (s1 s2 x : Bytes)
+    (hq : σ.core.phase = .query) (ho : σ.core.serverOpen = true)
+    (hnone : (parse c.I (σ.respBuf ++ s1)).1 = []) (hok : (parse c.I (σ.respBuf ++ s1)).2.2 = false) :
+    run c σ [.serverData s1, .clientData x, .serverData s2] = run c σ [.clientData x, .serverData (s1 ++ s2)] := by
+  have h1 : run c σ [.serverData s1, .clientData x, .serverData s2] =
+      ((run c (run c σ [.serverData s1, .clientData x]).1 [.serverData s2]).1,
+       (run c σ [.serverData s1, .clientData x]).2 ++ (run c (run c σ [.serverData s1, .clientData x]).1 [.serverData s2]).2) := by
+    simp [run, List.append_assoc]
+  rw [h1, buffered_server_commutes c htcp σ s1 x hq ho hnone hok]
+  have h2 : ∀ τ : State, run c τ [.clientData x, .serverData (s1 ++ s2)] = run c τ [.clientData x, .serverData s1, .serverData s2] := by
+    intro τ
+    simp only [run, server_seg_law c htcp _ s1 s2, List.append_nil, List.append_assoc]
+  rw [h2]
+  simp [run, List.append_assoc]
+
+-- c27-3's scenario: q1 answered; a stray duplicate of r1 arrives in two pieces around the client's q2; then the reply to q2
+example : outsOf tcp [] [] [.clientData (frame q1), .serverData (frame r1), .serverData ((frame r1).take 7),
+      .clientData (frame q2), .serverData ((frame r1).drop 7 ++ frame r77)] =
+    ["request", "open", "server:1", "response", "client:1:0", "request", "server:2", "response", "client:1:0"] := by
+  decide +kernel
+
 end MitmVerif.Props.C27
